@@ -48,12 +48,24 @@ CLAIMED.update({
    text='Skeleton clauses as whole-view postconditions of the real insert_quant/insert_dequant (original operators keep object, order, opcode, outputs; ONLY the listed consumers are rewired, every other operand of every operator unchanged; graph outputs rewired iff the graph-output marker is listed; graph inputs, tensor names/shapes/buffers unchanged) and the op-id bookkeeping of _apply_single_transformation/_update_op_id_map (arguments handed to the transformation are the current positions of exactly the listed operators; map re-established) for all graph sizes. Signature remapping and the generator->performer composition only by the labelled bounded end-to-end stand-in.',
    note='Unchecked: serializer fidelity; object-API attribute-bag model; _update_instructions/_apply_transformations/transform_graph loops and _remap_signature_outputs are not yet under contract (bounded stand-in through the public API covers them).',
    design='§4 C02'),
+ 'C18': dict(
+   technique='contract-based deductive verification: CPython-executed symbolic arrays (metrics, dequantisation) -> QF VCs (z3); AST symbolic executor (pyvc, ordered-map model with pop) for ComparisonResult.add_new_signature_results, compare_model, validate wiring',
+   level='proof',
+   text='Metric laws (MSE >= 0, 0 on equal arguments, symmetric; median ratio >= 0, 0 on equal; ValueError iff sizes differ; sanitising identity on finite data) for all sizes and values; partition-by-pop bookkeeping (every name in exactly one of inputs/outputs/constants/intermediates, values preserved, KeyError only outside the precondition); compare_model pairs tensors by name, one compare_fn(target, reference) per sample, mean over samples, one add per signature; dequantisation (q - zp) * scale and dtype->bits table.',
+   note='Interpreter reads / name lists / details are uninterpreted (assumed sample-independent); real arithmetic for floats; np.mean/np.median axiomatised; self-comparison = 0 stated over the flatbuffer tensors (kernel temporaries such as BatchMatMul_scratch_buffer are reported by the library with run-dependent values: recorded as an observation); generated-models quantifier only through a bounded stand-in.',
+   design='§4 C18'),
  'C19': dict(
    technique='contract-based deductive verification: frame (modifies) clauses and subgraph-local postconditions of the real transformation and performer functions, discharged by z3 via the AST symbolic executor',
    level='proof',
    text='Every heap store of insert_quant/insert_dequant/add_op_code/add_new_activation_tensor is checked against a frame that admits only objects of the instruction\'s own subgraph, the shared op-code table (extended, existing entries fixed) and fresh objects; _update_op_id_map/_apply_single_transformation leave the op-id maps of every other subgraph untouched. Hence the final state of subgraph i is a function of its own instructions.',
    note='Assumes object graphs of different subgraphs are disjoint. Name-keyed plan generation and shared constants (C15) are not re-proved here; no end-to-end multi-signature comparison yet.',
    design='§4 C19'),
+ 'C03': dict(
+   technique='contract-based deductive verification: exhaustive native execution of the real mode-selection function over the finite config skeleton with opaque integers; AST symbolic executor (pyvc) for the list helpers of materialize_standard_op, _get_params_for_no_quant_op, insert_quant/insert_dequant dtype postconditions and the bit-width->dtype tables',
+   level='proof',
+   text='Mode table (SRQ / DRQ / weight-only / blockwise rows x inbound x constant) of get_tensor_transformations for every constructible config (integers opaque => all widths); alignment / ignored-operand bookkeeping helpers of materialize_standard_op and the no-quantize path proved for all operand counts; inserted QUANTIZE/DEQUANTIZE convert between the dtypes their neighbours require; width->dtype tables. The composition of the helpers inside materialize_standard_op and the dtype algebra of the instruction list (_quant_params_to_transformation_insts, vertical optimisation, consumer grouping) are covered by labelled bounded stand-ins only.',
+   note='Bounded (not proved): materialize_standard_op as a whole (251,944 synthetic ops), instruction-list dtype algebra (<= 4 consumers, 2 parameter classes), bias / fp16 materialisation clauses. Serializer fidelity trusted for byte identity of untouched constants. A counting identity used as precondition of _merge_materialized_tensors is not machine checked.',
+   design='§4 C03'),
  'C04': dict(
    technique='contract-based deductive verification: CPython-executed symbolic arrays over the real parameter/statistics/bias code -> QF VCs (z3 LIA/NRA); exhaustive native execution of the real materialize functions over the finite (op, bits, granularity, rank) tables',
    level='proof',
